@@ -4,7 +4,8 @@ the `fix:` commits) and the functional shape of `spill` (`node.rs spill / split`
 
 Trees are the value trees of `Tree.lean`.  A node's `pid` field encodes `2·page_id + m` where `m = 1`
 when the transaction has materialised the page as a node (only such nodes are rewritten by `spill`).
-Leaf payloads are `Ent` (value size, is-a-nested-bucket): all that the split thresholds depend on.
+Leaf payloads are arbitrary (`E`, with the stored size of an entry given by `esz`); `Ent` (value size,
+is-a-nested-bucket) with `entSize` is all that the split thresholds depend on.
 
 `rebalance` is replayed step by step: *which* node is merged at which moment is read from the real run
 (feature-gated notes), the model performs the step and the results are compared (the code's traversal
@@ -131,39 +132,40 @@ end
 
 /-! ### spill: shape of the rewritten tree -/
 
-section
-variable (p : Params) (pagesize hdr leafHdr branchHdr bmSize : Nat)
-
-def entSize (e : Bytes × Ent) : Nat := e.1.length + (if e.2.isBucket then bmSize else e.2.vsize)
+def entSize (bmSize : Nat) (e : Bytes × Ent) : Nat := e.1.length + (if e.2.isBucket then bmSize else e.2.vsize)
 
 def firstKeyOr (d : Bytes) : List (Bytes × α) → Bytes
   | [] => d
   | (k, _) :: _ => k
 
+section
+variable {E : Type} (p : Params) (pagesize hdr leafHdr branchHdr : Nat) (esz : Bytes × E → Nat)
+
 mutual
 /-- the pieces a node is written as, each with the key its parent will hold for it.  Pages the
 transaction never materialised are kept as they are, under the key the parent already holds; written
-pieces are marked unmaterialised (a node is spilled once). -/
-def spillT (key : Bytes) : Tree Bytes Ent → List (Bytes × Tree Bytes Ent)
+pieces are marked unmaterialised (a node is spilled once).  `esz` is the stored size of a leaf entry
+(`entSize bmSize` for the size-only payload `Ent`). -/
+def spillT (key : Bytes) : Tree Bytes E → List (Bytes × Tree Bytes E)
   | .leaf pid es =>
     if !nodeMat pid then [(key, .leaf pid es)] else
-    (cutAt es (splitIndexes p pagesize hdr leafHdr (es.map (entSize bmSize))) 0).map
+    (cutAt es (splitIndexes p pagesize hdr leafHdr (es.map esz)) 0).map
       (fun c => (firstKeyOr key c, Tree.leaf 0 c))
   | .branch pid kids =>
     if !nodeMat pid then [(key, .branch pid kids)] else
     let ents := spillF kids
     (cutAt ents (splitIndexes p pagesize hdr branchHdr (ents.map (fun e => e.1.length))) 0).map
       (fun c => (firstKeyOr key c, Tree.branch 0 (Forest.ofList c)))
-def spillF : Forest Bytes Ent → List (Bytes × Tree Bytes Ent)
+def spillF : Forest Bytes E → List (Bytes × Tree Bytes E)
   | .nil => []
   | .cons k t rest => spillT k t ++ spillF rest
 end
 
 /-- a root that was written as several pieces gets a new root above them, which is spilled in turn -/
-def spillRoot : Nat → Tree Bytes Ent → Tree Bytes Ent
+def spillRoot : Nat → Tree Bytes E → Tree Bytes E
   | 0, t => t
   | fuel + 1, t =>
-    match spillT p pagesize hdr leafHdr branchHdr bmSize [] t with
+    match spillT p pagesize hdr leafHdr branchHdr esz [] t with
     | [] => t
     | [(_, r)] => r
     | many => spillRoot fuel (.branch 1 (Forest.ofList many))
@@ -171,9 +173,9 @@ def spillRoot : Nat → Tree Bytes Ent → Tree Bytes Ent
 /-- one bucket's commit: the replay of the reported `rebalance` steps, the touches of the headers of the
 nested buckets that were committed below it (`touched` = their names), then `spill` with as much fuel as
 the root has pieces (enough: `spillRoot_terminates`) -/
-def commitTree (steps : List RbStep) (touched : List Bytes) (t : Tree Bytes Ent) : Tree Bytes Ent :=
+def commitTree (steps : List RbStep) (touched : List Bytes) (t : Tree Bytes E) : Tree Bytes E :=
   let r := (t.rebalance steps).touchAll touched
-  spillRoot p pagesize hdr leafHdr branchHdr bmSize (spillT p pagesize hdr leafHdr branchHdr bmSize [] r).length r
+  spillRoot p pagesize hdr leafHdr branchHdr esz (spillT p pagesize hdr leafHdr branchHdr esz [] r).length r
 
 end
 
